@@ -164,6 +164,7 @@ type persistProg struct {
 	Groups int
 	NOps   int
 	Keys   [][]byte
+	Prev   int // the worker processes were deployed before, idle, in an assembly of Prev operators (0 = never): a job that was rescaled while its workers kept running
 }
 
 func genPersist(rt *rapid.T) persistProg {
@@ -171,6 +172,7 @@ func genPersist(rt *rapid.T) persistProg {
 		Groups: rapid.SampledFrom([]int{1, 2, 3, 7, 16, 64, 255, 256, 257, 1000}).Draw(rt, "groups"),
 		NOps:   rapid.IntRange(1, 3).Draw(rt, "nops"),
 		Keys:   rapid.SliceOfN(rapid.SliceOfN(rapid.Byte(), 0, 9), 1, 12).Draw(rt, "keys"),
+		Prev:   rapid.SampledFrom([]int{0, 0, 1, 2, 3, 4}).Draw(rt, "prev"),
 	}
 }
 
@@ -186,11 +188,26 @@ func execPersist(p persistProg, c *hx.Case) error {
 		}
 		ops = append(ops, op)
 	}
+	redeployed := 0
+	if p.Prev > 0 {
+		// an earlier deployment of the same processes with another operator count;
+		// it saw no events, so nothing of it is in flight when the next one comes
+		prev := []string{"op0", "op1", "op2", "op3"}[:p.Prev]
+		for i, op := range ops {
+			if i < p.Prev {
+				if err := op.Deploy(w.DeployRequest(prev, []string{"sr"}, p.Groups, nil)); err != nil {
+					return hx.Errf("earlier deploy: %v", err)
+				}
+				redeployed++
+			}
+		}
+	}
 	for _, op := range ops {
 		if err := op.Deploy(w.DeployRequest(ids, []string{"sr"}, p.Groups, nil)); err != nil {
 			return hx.Errf("deploy: %v", err)
 		}
 	}
+	c.LabelIf(redeployed > 0 && p.Prev != p.NOps, "redeployed-in-place-with-another-operator-count")
 	ks := partitioning.NewKeySpace(p.Groups, p.NOps)
 	sentTo := map[string]int{}
 	for i, k := range p.Keys {
@@ -267,7 +284,7 @@ func execPersist(p persistProg, c *hx.Case) error {
 }
 
 func TestPropPersistedPrefix(t *testing.T) {
-	hx.Run(t, hx.Spec{Prop: "C05", Persist: true, Rule: "1..3 real operators over 1..1000 key groups process one event per generated key (arbitrary bytes, routed by KeySpace.RangeIndex as a source runner does) that writes one state entry and one timer, then checkpoint; each operator's checkpoint is opened with plain dkv.Open and every persisted entry must sit under a two-byte big-endian group inside the operator's reported range and equal to the reference MurmurHash3-32 mod count of its subject key, and both entries of every key must be found; non-trivial = group count not divisible by the operator count and >=3 keys"}, genPersist, execPersist)
+	hx.Run(t, hx.Spec{Prop: "C05", Persist: true, Rule: "1..3 real operators over 1..1000 key groups (in two thirds of the cases deployed once before, idle, in an assembly of 1..4 operators) process one event per generated key (arbitrary bytes, routed by KeySpace.RangeIndex as a source runner does) that writes one state entry and one timer, then checkpoint; each operator's checkpoint is opened with plain dkv.Open and every persisted entry must sit under a two-byte big-endian group inside the operator's reported range and equal to the reference MurmurHash3-32 mod count of its subject key, and both entries of every key must be found; non-trivial = group count not divisible by the operator count and >=3 keys"}, genPersist, execPersist)
 }
 
 func FuzzMurmur(f *testing.F) {
